@@ -267,6 +267,27 @@ def check_enum_union(form, default, kind="pydantic_v2.BaseModel"):
         e2e.unload(mod)
 
 
+def check_gql_enum(values, opts):
+    """a GraphQL enum whose value names coincide after sanitation: the generated Enum has exactly the GraphQL value names as values"""
+    sdl = "enum E {\n" + "\n".join("  " + v for v in values) + "\n}\n\ntype Query {\n  e: E\n}\n"
+    g = e2e.generate(sdl, kind="pydantic_v2.BaseModel", file_type="graphql", **opts)
+    if g.timeout:
+        return "generate() does not terminate"
+    if not g.ok or e2e.parses(g.text):
+        return None
+    tree = ast.parse(g.text)
+    cls = next((n for n in tree.body if isinstance(n, ast.ClassDef) and n.name == "E"), None)
+    if cls is None:
+        return None
+    got = sorted(st.value.value for st in cls.body if isinstance(st, ast.Assign) and isinstance(st.value, ast.Constant))
+    names = [t.id for st in cls.body if isinstance(st, ast.Assign) for t in st.targets if isinstance(t, ast.Name)]
+    if len(set(names)) != len(names):
+        return f"duplicate member names {names}"
+    if got != sorted(values):
+        return f"values of the generated Enum are {got}, the GraphQL enum lists {sorted(values)}"
+    return None
+
+
 def falsify(ctx):
     rng = ctx.rng("fals")
     cases = []
@@ -339,10 +360,19 @@ def falsify(ctx):
             if why:
                 ctx.violation(f"enum-union:{form}:{default!r}", f"member accepting two enumerations ({form}), default {default!r}: {why}",
                               {"enum_union": [form, default], "why": why})
+    for values, o in ((["class", "class_", "pass"], {}), (["mro", "mro_", "x"], {}), (["_a", "field__a", "b"], {}), (["red", "RED", "Red"], {"capitalise_enum_members": True}),
+                      (["fooBar", "foo_bar"], {"capitalise_enum_members": True}), (["A", "B"], {})):
+        ctx.count("eval_e2e")
+        ctx.nontrivial(("gql-enum", tuple(values), json.dumps(o)))
+        why = check_gql_enum(values, o)
+        if why:
+            ctx.violation(f"gql-enum:{values}:{sorted(o)}", f"GraphQL enum {values} {o}: {why}", {"gql_enum": [values, o], "why": why})
     ctx.sample({"values": cases[-1][0], "opts": cases[-1][2]})
 
 
 def replay_finding(ctx, f):
+    if "gql_enum" in f["replay"]:
+        return check_gql_enum(*f["replay"]["gql_enum"]) is not None
     if "enum_union" in f["replay"]:
         return check_enum_union(*f["replay"]["enum_union"]) is not None
     r = f["replay"]
